@@ -26,7 +26,7 @@ RULE = (
     "non-trivial = variant with >= 1 switch not at the end; distinct by (switch set, positions class, spelling, handler kind, "
     "stream kind, tree shape)."
 )
-BOUND = {"quick": "30 trees x <= 4 base lines x ~45 variants", "thorough": "1200 trees x <= 6 base lines x ~120 variants"}
+BOUND = {"quick": "30 trees x <= 4 base lines x ~45 variants", "thorough": "3500 trees x <= 6 base lines x ~120 variants"}
 ASSUMPTIONS = [
     "--ansi with --no-ansi, help with version, and two verbosity switches are not combined in one variant (precedence is not stated)",
     "help and version clauses are asserted for placements after the full command path (a switch inside the path legitimately cuts it, C03)",
@@ -365,7 +365,7 @@ def plan(tier, seed):
     env = {"PATH": "/nonexistent-verif-path"}
     if tier == "quick":
         return [{"n": 8, "_env": env} for _ in range(4)]
-    return [{"n": 75, "_env": env} for _ in range(16)]
+    return [{"n": 220, "_env": env} for _ in range(16)]
 
 
 def run(sh, spec):
